@@ -1,9 +1,11 @@
 #!/usr/bin/env python3
 """for every kept seed: does the DEDUCTIVE part alone notice it? (failed/undecided obligations on the patched tree)
-writes seeded/DEDUCTIVE.json"""
+writes seeded/DEDUCTIVE.json;  with --full: the complete quick check of the seed's property, writes seeded/FULL.json
+(exit 1 = detected with a VIOLATION line)"""
 import json, os, subprocess, sys, tempfile, shutil
 from concurrent.futures import ThreadPoolExecutor
 VERIF = os.path.dirname(os.path.dirname(os.path.abspath(__file__)))
+FULL = '--full' in sys.argv            # complete quick check (deductive + bounded) instead of the deductive part alone
 
 
 def one(sid):
@@ -15,8 +17,8 @@ def one(sid):
         p = subprocess.run('patch -p1 -s < %s' % os.path.join(d, 'patch.diff'), shell=True, cwd=tmp, capture_output=True, text=True)
         if p.returncode != 0:
             return sid, {'error': 'patch does not apply: ' + p.stdout[-200:]}
-        r = subprocess.run('./check %s --only deductive' % pid, shell=True, cwd=VERIF, env=dict(os.environ, PYVC_REPO=tmp),
-                           capture_output=True, text=True, timeout=1800)
+        r = subprocess.run('./check %s %s' % (pid, '--tier quick' if FULL else '--only deductive'), shell=True, cwd=VERIF,
+                           env=dict(os.environ, PYVC_REPO=tmp), capture_output=True, text=True, timeout=3600)
         lines = [l for l in r.stdout.splitlines() if 'condarc' not in l]
         return sid, {'exit': r.returncode, 'violated': [l.strip()[:160] for l in lines if l.strip().startswith('violated:')][:3],
                      'undecided': [l.strip()[:220] for l in lines if 'UNDECIDED' in l][:3],
@@ -27,11 +29,12 @@ def one(sid):
 
 def main():
     sids = sorted(x for x in os.listdir(os.path.join(VERIF, 'seeded')) if os.path.isfile(os.path.join(VERIF, 'seeded', x, 'patch.diff')))
-    if len(sys.argv) > 1:
-        sids = [s for s in sids if s in sys.argv[1:]]
+    names = [a for a in sys.argv[1:] if not a.startswith('--')]
+    if names:
+        sids = [s for s in sids if s in names]
     with ThreadPoolExecutor(max_workers=4) as ex:
         res = dict(ex.map(one, sids))
-    out = os.path.join(VERIF, 'seeded', 'DEDUCTIVE.json')
+    out = os.path.join(VERIF, 'seeded', 'FULL.json' if FULL else 'DEDUCTIVE.json')
     old = json.load(open(out)) if os.path.exists(out) else {}
     old.update(res)
     json.dump(old, open(out, 'w'), indent=1, sort_keys=True)
